@@ -116,6 +116,33 @@ example : Gen.Tables.rngSites.length ≥ 40 ∧
     siteOk Gen.Tables.seededSources ⟨"nessai/flowmodel/base.py", "FlowModel._train", 410, "torch.randperm", .draw, .torchGlobal⟩ = true := by
   decide
 
+/-! ### `configure_random_seed`: the user's seed is used, whatever its value -/
+
+/-- The branch of `configure_random_seed` that REPLACES the seed by a random one (its condition is regenerated from the
+source) is taken exactly when the seed is `None` — for every integer seed, including `0`, the user's value is kept. -/
+theorem seed_replaced_iff_none : ∀ s : Option Int, Gen.Tables.seedReplaced s = s.isNone := by
+  intro s; cases s <;> rfl
+
+/-- the edge seeds of the digest runs, by evaluation -/
+example : Gen.Tables.seedReplaced (some 0) = false ∧ Gen.Tables.seedReplaced (some 1) = false ∧
+    Gen.Tables.seedReplaced (some 4294967294) = false ∧ Gen.Tables.seedReplaced none = true := by decide
+
+/-- …whereas the truthiness test `if not seed:` would replace the legal seed 0 (what the theorem above excludes). -/
+theorem seed_kept_fails_without_is_none_test : (!pyTruthy (some 0)) = true ∧ (some (0 : Int)).isNone = false := by decide
+
+/-- In `configure_random_seed` the argument is rebound only inside the replacement branch, `self.seed` stores exactly
+the argument, and afterwards — as top-level statements, hence on every path — both the NumPy and the torch global
+generators are seeded with that stored value. -/
+theorem seeding_unconditional_with_stored_seed :
+    seedingOk Gen.Tables.seedBinds Gen.Tables.seedCalls = true := by decide
+
+example : seedingOk [⟨5, "self.seed", "seed", false⟩] [⟨6, "numpy.random.seed", .numpyGlobal, "self.seed", true⟩] = false ∧
+    seedingOk [⟨5, "self.seed", "seed", false⟩, ⟨4, "seed", "seed or 1", false⟩]
+      [⟨6, "numpy.random.seed", .numpyGlobal, "self.seed", true⟩, ⟨7, "torch.manual_seed", .torchGlobal, "self.seed", true⟩] = false ∧
+    seedingOk [⟨5, "self.seed", "seed", false⟩]
+      [⟨6, "numpy.random.seed", .numpyGlobal, "self.seed", true⟩, ⟨7, "torch.manual_seed", .torchGlobal, "self.seed", false⟩] = false := by
+  decide
+
 /-! ### the one interference: the vectorisation probe -/
 
 /-- The only draws of random numbers whose execution is conditional on a parallelisation setting are those of the
